@@ -286,6 +286,18 @@ fn main() {
         }
         t
     });
+    // S5: structured operands (word limits, products crossing word limits, patterns at every length, carry
+    // chains, all-ones words) x scales around the digit count x written-out trailing zeros
+    let st = structured_ints(tier.pick(80, 300), tier.pick(24, 60), run.seed());
+    run.bound("S5_structured_integers", st.len());
+    run.par("S5 structured operands", st.len(), |i| {
+        let mut t = Tally::default();
+        let l = ndigits(&st[i]) as i128;
+        for x in structured_decimals(&st[i..=i], &[0, 1, -1, -16, l - 1, l, l + 5, l + 6, l + 7, 19, 20], &[0, 1, 12]) {
+            check_all(&run, &cfg, &x, &mut t);
+        }
+        t
+    });
     let _ = num_bigint::BigInt::zero();
     run.finish();
 }
